@@ -128,7 +128,7 @@ class C14(object):
             'present')
     assumptions = ["variable names never contain the word 'exogenous'", 'descriptions are single-line texts',
                    'a whole-line comment containing the marker word IS the marker (the model emits it that way)']
-    required_counters = ('block.judged', 'lines.judged', 'hostile_variant.judged', 'malformed.judged',
+    required_counters = ('block.judged', 'lines.judged', 'hostile_variant.judged', 'malformed.judged', 'bad_run_parameter.judged',
                          'model_desc.judged')
 
     def n_cases(self, tier):
@@ -161,6 +161,21 @@ class C14(object):
             return self.run_model_desc(case)
         rec = monitors.Recorder()
         rng = random.Random(case['cseed'])
+        if case['cseed'] % 5 == 0:
+            # malformed run parameters are reported (an exception), never silently mis-read
+            base_text = build_text(case, 'none')
+            for bad in ('MaxTime = soon', 'MaxTime = 3.5', 'Err_Tolerance = tiny', 'MaxTime = 10 # ok\nMaxTime = ten'):
+                try:
+                    p_, msg_ = self.parse(base_text + '\n' + bad)
+                    outcome = 'accepted'
+                except ValueError:
+                    outcome = 'ValueError'
+                except Exception as e:
+                    outcome = type(e).__name__
+                rec.count('bad_run_parameter.judged')
+                if outcome == 'accepted' and bad.split('\n')[-1] not in msg_:
+                    rec.violate('malformed_run_parameter_not_reported', {'line': bad, 'maxtime_read': p_.MaxTime,
+                                                                         'tolerance_read': p_.Err_Tolerance})
         variants = {}
         for mode in ('none', 'plain', 'hostile'):
             text = build_text(case, mode)
